@@ -26,10 +26,10 @@ type tspace struct {
 	n, lox, hix, loy, hiy float64
 }
 
-// the domain: lon in (-179.82, 179.82), |lat| < 84.97 — inside the quantifier's open ranges
+// the domain: |lon| < 179.99997, |lat| < 84.9988 - inside the quantifier's open ranges
 func newTS(z uint32) tspace {
 	n := worldN(z)
-	return tspace{z, n, 0.0005 * n, 0.9995 * n, 0.0025 * n, 0.9975 * n}
+	return tspace{z, n, 1e-7 * n, (1 - 1e-7) * n, 0.00165 * n, 0.99835 * n}
 }
 
 func (s tspace) clamp(x, y float64) (float64, float64) {
@@ -411,7 +411,9 @@ func genRect(t *rapid.T, s tspace) orb.Polygon {
 	}
 	if rapid.Bool().Draw(t, "rrev") {
 		for _, r := range poly {
-			r.Reverse()
+			for i, j := 0, len(r)-1; i < j; i, j = i+1, j-1 {
+				r[i], r[j] = r[j], r[i]
+			}
 		}
 	}
 	return poly
@@ -419,9 +421,19 @@ func genRect(t *rapid.T, s tspace) orb.Polygon {
 
 // ---------------------------------------------------------------- other kinds
 
+// negZero turns an exactly zero longitude / latitude into -0 half of the time.
+func negZero(t *rapid.T, p orb.Point) orb.Point {
+	for d := 0; d < 2; d++ {
+		if p[d] == 0 && rapid.Bool().Draw(t, "negzero") {
+			p[d] = math.Copysign(0, -1)
+		}
+	}
+	return p
+}
+
 func genPoint(t *rapid.T, s tspace) orb.Point {
 	x, y := s.centre(t, 0)
-	return s.vertex(x, y, rapid.IntRange(0, 3).Draw(t, "psnap") == 0)
+	return negZero(t, s.vertex(x, y, rapid.IntRange(0, 3).Draw(t, "psnap") == 0))
 }
 
 func genBound(t *rapid.T, s tspace) orb.Bound {
@@ -447,7 +459,18 @@ func genBound(t *rapid.T, s tspace) orb.Bound {
 	if h == 0 {
 		b[1] = a[1]
 	}
-	return orb.Bound{Min: orb.Point{math.Min(a[0], b[0]), math.Min(a[1], b[1])}, Max: orb.Point{math.Max(a[0], b[0]), math.Max(a[1], b[1])}}
+	bd := orb.Bound{Min: negZero(t, orb.Point{math.Min(a[0], b[0]), math.Min(a[1], b[1])}), Max: negZero(t, orb.Point{math.Max(a[0], b[0]), math.Max(a[1], b[1])})}
+	// inverted on one or both axes (outside the property: nothing required, only a
+	// tile holding both corners is allowed); tilecover.Bound returns the empty set
+	switch rapid.IntRange(0, 15).Draw(t, "binv") {
+	case 13:
+		bd.Min[0], bd.Max[0] = bd.Max[0], bd.Min[0]
+	case 14:
+		bd.Min[1], bd.Max[1] = bd.Max[1], bd.Min[1]
+	case 15:
+		bd.Min, bd.Max = bd.Max, bd.Min
+	}
+	return bd
 }
 
 // genDegenerate: members outside the quantifier (no positive length / not a
@@ -457,7 +480,11 @@ func genDegenerate(t *rapid.T, s tspace) orb.Geometry {
 	pp := project(p, s.z)
 	qx, qy := s.clamp(pp[0]+rapid.Float64Range(-2, 2).Draw(t, "dqx"), pp[1]+rapid.Float64Range(-2, 2).Draw(t, "dqy"))
 	q := unproject(qx, qy, s.z)
-	switch rapid.IntRange(0, 9).Draw(t, "deg") {
+	switch rapid.IntRange(0, 11).Draw(t, "deg") {
+	case 10:
+		return orb.Ring{p, q}
+	case 11:
+		return orb.Polygon{orb.Ring{p, q}, orb.Ring{q}}
 	case 0:
 		return orb.LineString{}
 	case 1:
@@ -483,8 +510,11 @@ func genDegenerate(t *rapid.T, s tspace) orb.Geometry {
 // genGeom draws one geometry and the name of its generator class.
 func genGeom(t *rapid.T, s tspace, depth int) (orb.Geometry, string) {
 	hi := 99
-	if depth > 0 {
-		hi = 93 // no nested-nested collections, no degenerate members inside collections
+	switch {
+	case depth == 1:
+		hi = 97 // collections inside collections (down to depth 3 with a cluster), no degenerate members
+	case depth > 1:
+		hi = 93
 	}
 	k := rapid.IntRange(0, hi).Draw(t, "kind")
 	switch {
